@@ -321,6 +321,18 @@ pub fn mentions(e: &Expr, c: usize) -> bool {
     }
 }
 
+/// does column `c` occur under a NOT, or in a `!=` comparison?  (the shapes lance's scalar-index planner turns into
+/// `ScalarIndexExpr::Not`, whose two-valued answer also returns the rows where the column is NULL — C19's finding)
+pub fn negates_col(e: &Expr, c: usize) -> bool {
+    match e {
+        Expr::Cmp(Cmp::Ne, a, Operand::Col(d)) => *a == c || *d == c,
+        Expr::Cmp(Cmp::Ne, a, _) => *a == c,
+        Expr::Not(a) => mentions(a, c),
+        Expr::And(a, b) | Expr::Or(a, b) => negates_col(a, c) || negates_col(b, c),
+        _ => false,
+    }
+}
+
 /// add `k` to every column index (used to address the second half of a combined row)
 pub fn shift_cols(e: &Expr, f: &dyn Fn(usize) -> usize) -> Expr {
     match e {
